@@ -680,11 +680,42 @@ def rule_steps(make, ft):
     return out
 
 
+def rewrites_aromatic_bonds(make):
+    """mechanism test: the input is in aromatic (Thiele) form and fix_resonance() changes the order of an aromatic bond (its path search
+    takes order 4 - 1 = 3 for a legal step)"""
+    try:
+        x = make()
+        before = {(min(n, k), max(n, k)) for n, k, bd in x.bonds() if int(bd) == 4}
+        if not before:
+            return False
+        x.fix_resonance()
+        return any(int(x._bonds[n][k]) != 4 for n, k in before)
+    except Exception:
+        return False
+
+
+class Keyed:
+    """every counterexample of the fix_resonance / standardize family on an input whose aromatic bonds fix_resonance rewrites is one recorded
+    mechanism, whatever oracle notices it (valence error, idempotence, numbering, composition)"""
+
+    def __init__(self, lim, make, family):
+        self.lim, self.make, self.family, self.arom = lim, make, family, None
+
+    def counterexample(self, kind, key, *a, **kw):
+        if self.family in ('fix_resonance', 'standardize'):
+            if self.arom is None:
+                self.arom = rewrites_aromatic_bonds(self.make)
+            if self.arom:
+                key = 'fix_resonance-rewrites-aromatic-bonds'
+        self.lim.counterexample(kind, key, *a, **kw)
+
+
 def check_op(ck, lim, name, smi, make, renumber=True, fixed_corpus=False):
     """all oracles of one operation on one molecule; make() builds a fresh input molecule"""
     op = OPS[name]
     code = OP_CODE[name]
     family = name.split('(')[0]
+    lim = Keyed(lim, make, family)
     m = make()
     before = observe(m)
     valid = valence_valid(m)
